@@ -536,6 +536,7 @@ func init() {
 						}
 					}
 				}},
+				c20ReuseSub(),
 				{Name: "non-resource-names", N: 1, Note: "datatype names, base names and '' are not resource types", Run: func(i int, r *core.Rec) {
 					for _, bad := range []string{"", "HumanName", "Quantity", "Extension", "Resource", "DomainResource", "Element", "BackboneElement", "ContainedResource", "string", "Reference", "Any"} {
 						var e2 error
